@@ -143,7 +143,9 @@ func (prop) Drive(d *core.Driver) error {
 		"(all basic kinds, pointers, slices, arrays, maps with every accepted key kind, reflect.StructOf structs with json tags/omitempty/-/embedded fields, " +
 		"27 static named types incl. unexported fields and recursive structs, time.Time, any) each with 8 random values (nil at every level). " +
 		"Every value is rendered through a statically typed global and an any-typed global in 3 .js holes, 10 HTML <script> JS variants, 1 Markdown script, " +
-		"4 JSON-LD script variants, 1 Markdown JSON-LD script and a .json file (3 holes). evaluations = renderings judged. " +
+		"4 JSON-LD script variants, 1 Markdown JSON-LD script and a .json file (3 holes). For the fixed cases and every second random case each value is " +
+		"additionally written as template source (typed composite literal; the named types declared with {% type %} in the template) and shown in a JS and a JSON-LD script, " +
+		"so that values of compiler-created types are rendered too. evaluations = renderings judged. " +
 		"distinct_nontrivial = distinct (js|json|json-valid-only, value class) pairs whose rendering was judged, value classes being the kinds/corner classes met while walking the value (e.g. float64:NaN, map:complex128-key, struct:first-field-omitted, string:LS-PS)"
 	d.T.Assumptions = []string{
 		"JS oracle is the literal grammar of ECMA-262 as implemented (and unit-tested) in verif/oracle/jsvalue, strict-mode (module) grammar",
@@ -242,7 +244,8 @@ func (prop) Drive(d *core.Driver) error {
 	}
 	d.T.Set("contexts", contextNames())
 	d.T.Set("cases", len(cases))
-	d.Run(cases, core.RunOpts{})
+	// the work of a child is sequential: two Ps are enough (GC), and 16 idle Ps per child only burn system time
+	d.Run(cases, core.RunOpts{GOMAXPROCS: 2})
 	return nil
 }
 
